@@ -366,6 +366,11 @@ static void applyArgSettings(const vj::Value& cfg, const vj::Value& a, TypedArgB
       if (fmts[k].str() == "upper") t->addFormat(uppercase());
       else if (fmts[k].str() == "lower") t->addFormat(lowercase());
    }
+   const vj::Value& fpos = a["fmtpos"];                 // formats of single positions (tuples)
+   for (size_t k = 0; k < fpos.size(); ++k) {
+      if (fpos[k]["f"].str() == "upper") t->addFormatPos(static_cast<int>(fpos[k]["p"].num()), uppercase());
+      else if (fpos[k]["f"].str() == "lower") t->addFormatPos(static_cast<int>(fpos[k]["p"].num()), lowercase());
+   }
    if (a["kind"].str() == "mapsi") t->setListSep(static_cast<char>(a["sep"].num()));      // default ';', the pair separator ',' is refused
    else if (a["sep"].num() != 0 && a["sep"].num() != ',') t->setListSep(static_cast<char>(a["sep"].num()));
    if (a["kind"].str() == "valint" && !a["chkorig"].boolean(true)) t->checkOriginalValue(false);
